@@ -19,7 +19,7 @@ CHECKS = {
  'C09': dict(engine='MibCompile', design='6 (C09)', technique='TLA+ spec MibCompile.tla + TLC; replay through real MibCompiler; TLC trace validation',
              text='AllOrNothing (plus closure and no-raise) for every placement of failures with ignoreErrors on/off, with and without borrowers.', note=MC_NOTE),
  'C10': dict(engine='MibCompile', design='6 (C10 first half)', technique='TLA+ spec MibCompile.tla + TLC; replay through real MibCompiler; TLC trace validation',
-             text='FreshMeansUntouched, SearcherOrder, SearcherSeesSourceTime, NoDepsOnlyRequested, GeneratedWhenNeeded, OptionsPassed over all searcher answers (fresh/absent/error/silent) x rebuild x noDeps. (The file searchers own up-to-date answer, second half of C10, is being added as Searcher.tla.)', note=MC_NOTE),
+             text='FreshMeansUntouched, SearcherOrder, SearcherSeesSourceTime, NoDepsOnlyRequested, GeneratedWhenNeeded, OptionsPassed over all searcher answers (fresh/absent/error/silent) x rebuild x noDeps. Second half: Searcher.tla enumerates every directory configuration (entries absent/dir/file with times src-1/src/src+1, .pyc header variants, rebuild, stub lists); each is materialised on disk (source time stamp obtained through the real FileReader, sub-second times) and the answer of the real AnyFileSearcher/PyFileSearcher/PyPackageSearcher/StubSearcher is validated by TLC (SearcherTrace) against UpToDateExactly.', note=MC_NOTE),
  'C19': dict(engine='MibCompile', design='6 (C19 first half)', technique='TLA+ spec MibCompile.tla + TLC; replay through real MibCompiler with real AnyFileBorrower around reader doubles; TLC trace validation',
              text='BorrowOnlyFailures, FlavourMatch, BorrowOrder, Verbatim, NeverReplaceCompiled, RequestedStayEligible over all borrower lists (flavours, ok/nf/err) x failure placements x noDeps/genTexts/ignoreErrors.', note=MC_NOTE),
 
@@ -42,6 +42,7 @@ m = {
  'engines': [{'name': 'MibCompile', 'path': 'specs/MibCompile.tla', 'serves_properties': ['C07', 'C08', 'C09', 'C10', 'C19'],
               'kind_free_text': 'TLA+ state machine of MibCompiler.compile() with lazy environment; MibCompileProps.tla formulas; MibCompileTrace.tla batch trace validation'},
              {'name': 'AtomicWrite', 'path': 'specs/AtomicWrite.tla', 'serves_properties': ['C13'], 'kind_free_text': 'TLA+ model of putData() as system-call steps with fault injection and two interleaved writers; AtomicWriteTrace.tla'},
+             {'name': 'Searcher', 'path': 'specs/Searcher.tla', 'serves_properties': ['C10'], 'kind_free_text': 'TLA+ decision model of the file searchers over directory configurations; SearcherTrace.tla'},
              {'name': 'OidIndex', 'path': 'specs/OidIndex.tla', 'serves_properties': ['C18'], 'kind_free_text': 'TLA+ model of the persistent OID->module index and its merge/compaction; OidIndexTrace.tla'}],
  'checks': [], 'not_applicable': [],
  'notes': 'All checks: cwd=/verif, ./check <id> --tier quick|thorough; exit 0 pass, 1 violation (VIOLATION line), 2 machinery failure. known_findings.json lists open findings and fixed: records.',
